@@ -201,6 +201,16 @@ def run(ctx, rec):
         # number * Prefix and Prefixed * Prefix forms
         call(rec, "arith-raises:prefix*", f"{ma} * {pb.name}", {"kind": "prefixmul", "a": mpref.case_of(ma), "p": pb.name}, lambda: ma * pb)
         call(rec, "arith-raises:prefix*", f"({mpref._desc(a)}) * {pb.name}", {"kind": "prefixmul", "a": mpref.case_of(a), "p": pb.name}, lambda: a * pb)
+        # multiplication by an Exponent made of prefixes (x * e(k), x * (K * K), x * (K / m)): exact, whatever the mantissa's length
+        from hdl21.prefix import e as _e
+
+        long_a = mk(Decimal("1.000000000000000000000000000001"), pa) + mk(rng.choice(fixed), pb)  # > 28 significant digits
+        for k in (-9, -3, 3, 6, pa.value - pb.value):
+            rec.count("driver.exponent-ops")
+            ok_e, r = call(rec, "arith-raises:*exp", f"({mpref._desc(long_a)}) * e({k})", {"kind": "expmul", "a": mpref.case_of(long_a), "k": k}, lambda k=k: long_a * _e(k))
+            if ok_e and mpref.exact(r) != mpref.exact(long_a) * Fraction(10) ** k:
+                rec.violation("arith-inexact:*exp", f"({mpref._desc(long_a)}) * e({k}) returned {mpref._desc(r)}: not the exact product",
+                              case={"kind": "expmul", "a": mpref.case_of(long_a), "k": k})
         # Prefixed (+|-|*) plain numbers, in both operand orders (the reflected operators), compared too.  The list holds pairs
         # that Python hashes and compares equal although they enter Prefixed differently (a float through its repr, the equal
         # Decimal exactly): a float first, then "the same" Decimal
